@@ -203,6 +203,7 @@ func runC09(c *eng.Ctx) {
 	runC09FaultedConstruction(c, next)
 	runC09Raw(c, next)
 	runC09ClosePanic(c, next)
+	runC09NestedCreate(c, next)
 }
 
 func runC09Stress(c *eng.Ctx, next func() (int, bool)) {
